@@ -17,7 +17,7 @@ SPEC = {
              'answers contain both outcomes or a non-empty result list.'),
     'bounds': {'quick': {'random_patterns_per_shard': 250, 'trees_per_shard': 10}, 'thorough': {'random': 'until the time budget'}},
     'floor': {'quick': 40000, 'thorough': 400000},
-    'required_counters': ['pair_checks', 'translate_pairs', 'escape_pairs', 'tree_pairs', 'high_byte_evaluations',
+    'required_counters': ['pair_checks', 'flag_pair_sweep_pairs', 'translate_pairs', 'escape_pairs', 'tree_pairs', 'high_byte_evaluations',
                           'mixed_type_checks', 'composite_pairs'],
     'budget': {'quick': 45, 'thorough': 480},
     'shard_timeout': {'quick': 400, 'thorough': 1500},
@@ -199,9 +199,39 @@ def tree_pairs(ctx, rng, k):
             ctx.sample({'tree': spec, 'example': 'glob(p, root_dir=str) vs glob(encode(p), root_dir=bytes)'})
 
 
+SWEEP_PATTERNS = ['*', '**', 'a*', '*/', '**/a', '?', '[a-b]*', '@(a|b)', '!(a)', '.*', 'a/*', '*.d', 'A', '~', '-a', '!a', '{a,b}', 'a|b',
+                  'c:/*', '//h/s/*', '\\x61', 'a\\/b', '*\\\\']
+SWEEP_NAMES = ['a', 'b', 'A', 'ab', '.a', '.', '..', 'a/', 'a\\', 'a/b', 'a\\b', 'a/b/', 'a\\b\\', 'dir/\\', 'a/.', 'a/..', './a', 'c.d',
+               'c:/a', 'C:\\a', '//h/s/a', '\\\\H\\S\\a', '/', '\\', '~', '-a', '!a', '{a,b}', 'a|b', 'a.', 'a\n', ' ']
+
+
+def flag_pair_sweep(ctx):
+    """Every pair of flags (and every single flag) x a fixed pattern list x a fixed name list with both separator
+    spellings, trailing separators, dots, drive shapes: str and bytes answers must agree."""
+    import itertools
+    n = 0
+    for mod, opts in ((F, FN_OPT + ['EXTMATCH', 'SPLIT', 'BRACE']), (G, GL_OPT + ['EXTMATCH', 'SPLIT', 'BRACE', 'GLOBTILDE', 'FOLLOW'])):
+        combos = [()] + [(f,) for f in opts] + list(itertools.combinations(opts, 2))
+        for ci, combo in enumerate(combos):
+            if not ctx.mine(ci):
+                continue
+            flags = flags_of(combo)
+            for pat in SWEEP_PATTERNS:
+                wit = {'api': mod.__name__.split('.')[-1], 'patterns': pat, 'exclude': None, 'flags': list(combo)}
+                flt = mod.filter if mod is F else mod.globfilter
+                pair(ctx, 'flag-pair sweep: filter', wit, lambda: flt(SWEEP_NAMES, pat, flags=flags),
+                     lambda: flt(enc(SWEEP_NAMES), enc(pat), flags=flags))
+                pair(ctx, 'flag-pair sweep: translate', wit, lambda: mod.translate(pat, flags=flags), lambda: mod.translate(enc(pat), flags=flags),
+                     conv=lambda r: (enc(r[0]), enc(r[1])))
+                n += 2
+            ctx.mark_nontrivial(('sweep', mod.__name__, combo))
+    ctx.count('flag_pair_sweep_pairs', n)
+
+
 def run(ctx):
     quick = ctx.quick
     high_bytes(ctx)
+    flag_pair_sweep(ctx)
     if ctx.shard == 0:
         with T.Tree([('a', 'f', None), ('b', 'f', None)], 'c18m-') as tr:
             mixed_types(ctx, tr.root)
